@@ -4,9 +4,10 @@
 # runs the property's check against it and files it under /verif/seeded/<PROP>-<k>/.
 set -u
 PROP="$1"; K="$2"; PKG="$3"; TIER="${4:-quick}"
-SRC="/tmp/seed-out/$PROP/$K"
+SRC="${SEED_ROOT:-/tmp/seed-out}/$PROP/$K"
+DK="${DEST_K:-$K}"   # number under /verif/seeded (second-round changes are filed as 3, 4)
 export GOFLAGS=-mod=mod GOPROXY=off GOSUMDB=off GOTOOLCHAIN=local
-WT="/tmp/tryseed-$PROP-$K"
+WT="/tmp/tryseed-$PROP-${DEST_K:-$K}"
 git -C /repo worktree remove --force "$WT" 2>/dev/null
 BASEREF="${SEED_BASE:-HEAD}"
 git -C /repo worktree add -q "$WT" "$BASEREF" || exit 2
@@ -34,10 +35,10 @@ OUT=$(VERIF_REPO="$WT" ./run "$CHK" "$TIER" 2>&1)
 RC=$?
 echo "$OUT" | grep -E "VIOLATION|SUMMARY|INCONCLUSIVE" | cut -c1-260 | head -6
 echo "check exit: $RC"
-DEST="/verif/seeded/$PROP-$K"
+DEST="/verif/seeded/$PROP-$DK"
 mkdir -p "$DEST"
 [ -f "$DEST/patch.diff" ] || cp "$SRC/patch.diff" "$DEST/"; for d in $DEMOS; do cp "$SRC/$d" "$DEST/"; done; [ -f "$SRC/README.md" ] && cp "$SRC/README.md" "$DEST/"
-python3 - "$DEST" "$PROP" "$K" "$PKG" "$BASE" "$CLEAN" "$MUT" "${SUITE:-none}" "$RC" "$TIER" "$CHK" <<'PY'
+python3 - "$DEST" "$PROP" "$DK" "$PKG" "$BASE" "$CLEAN" "$MUT" "${SUITE:-none}" "$RC" "$TIER" "$CHK" <<'PY'
 import json,sys,os,re
 dest,prop,k,pkg,base,clean,mut,suite,rc,tier,chk=sys.argv[1:]
 readme=open(os.path.join(dest,'README.md')).read() if os.path.exists(os.path.join(dest,'README.md')) else ''
